@@ -34,9 +34,23 @@ ALLOWED_AXIOMS = {
 }
 
 
-def sh(cmd, cwd=None, env=None, timeout=None, inp=None):
+def sh(cmd, cwd=None, env=None, timeout=None, inp=None, stack_mb=None, extra_env=None):
+    if extra_env:
+        env = dict(env if env is not None else os.environ, **extra_env)
+    pre = None
+    if stack_mb:
+        # the extracted model recurses once per list element (non-tail-recursive stdlib functions):
+        # properties with very long inputs ask for a larger stack via "driver_stack_mb" in props.d
+        import resource
+
+        def pre():
+            soft, hard = resource.getrlimit(resource.RLIMIT_STACK)
+            lim = stack_mb * 1024 * 1024
+            if hard != resource.RLIM_INFINITY:
+                lim = min(lim, hard)
+            resource.setrlimit(resource.RLIMIT_STACK, (lim, hard))
     p = subprocess.run(cmd, cwd=cwd, env=env, timeout=timeout, input=inp, shell=isinstance(cmd, str),
-                       stdout=subprocess.PIPE, stderr=subprocess.STDOUT, text=True, errors="replace")
+                       stdout=subprocess.PIPE, stderr=subprocess.STDOUT, text=True, errors="replace", preexec_fn=pre)
     return p.returncode, p.stdout
 
 
@@ -249,7 +263,8 @@ def main(argv):
         open(cf, "w").write("\n".join(data) + "\n")
         rc1, out1 = sh([os.path.join(BUILD, "harness"), pid, "replay", cf], env=GOENV, timeout=3000)
         print(out1)
-        rc2, out2 = sh([os.path.join(BUILD, "ocaml", pid, "driver"), "print", cf])
+        rc2, out2 = sh([os.path.join(BUILD, "ocaml", pid, "driver"), "print", cf], stack_mb=P.get("driver_stack_mb"),
+                        extra_env=P.get("driver_env"))
         for l in out2.splitlines():
             print("MODEL " + l)
         return 1 if rc1 != 0 else 0
@@ -333,7 +348,8 @@ def main(argv):
     mism = []
     classes = {}
     if os.path.exists(os.path.join(BUILD, "ocaml", pid, "driver")):
-        rc, mout = sh([os.path.join(BUILD, "ocaml", pid, "driver"), "check", os.path.join(rundir, "cases.txt")], timeout=3000)
+        rc, mout = sh([os.path.join(BUILD, "ocaml", pid, "driver"), "check", os.path.join(rundir, "cases.txt")], timeout=3000,
+                      stack_mb=P.get("driver_stack_mb"), extra_env=P.get("driver_env"))
         summ = None
         for l in mout.splitlines():
             f = l.split("\t")
